@@ -204,6 +204,17 @@ func newReplCluster(cfg ReplCfg, pk, rk kit.Knobs, nrep int, link simnet.LinkCfg
 	return cl
 }
 
+// setDiskLatency gives every state-changing I/O of every node a virtual
+// duration of up to us microseconds, so that operations overlap in time with
+// the network.
+func (cl *replCluster) setDiskLatency(us int) {
+	d := time.Duration(us) * time.Microsecond
+	cl.fs.Node("n1").Latency = d
+	for _, rn := range cl.replicas {
+		cl.fs.Node(rn.name).Latency = d
+	}
+}
+
 // startPrimary mirrors replication.Manager.startPrimary: the engine's WAL
 // goes to NewPrimary, the primary is registered as the service.
 func (cl *replCluster) startPrimary() error {
